@@ -39,8 +39,11 @@ func (c *vConn) dispatch(req hwebsocket.ProtoMsg) {
 func VerifC11Poses() {
 	w := newVWorld(0)
 	own, obs := w.newConn(), w.newConn()
-	own.mustJoin("")
-	obs.mustJoin(own.sid)
+	obs.mustJoin("")
+	if verifnd.Bool() {
+		own.mustJoin("") // the owner was in a session of its own before
+	}
+	own.mustJoin(obs.sid)
 	e1 := own.addEntity(false, &hagallpb.Pose{})
 	e2 := own.addEntity(false, &hagallpb.Pose{})
 	ef := obs.addEntity(false, &hagallpb.Pose{})
@@ -159,4 +162,33 @@ func VerifC11Poses() {
 	verifnd.Assert(j >= 0 && handed.ents[j].pose[0] == 0, "C11.foreign_update_has_no_effect")
 	verifnd.Observe("c11", uint64(seq), uint64(lastSeen[e1]), uint64(lastSeen[e2]))
 	verifnd.Reach("C11.poses.done")
+}
+
+// VerifC11Par: sessions being joined and left while pose updates flow: a member leaves while a newcomer
+// joins (every interleaving at lock granularity); afterwards the newcomer's pose updates are still flushed by
+// the frame worker and relayed, and the remaining owner's too.
+func VerifC11Par() {
+	w := newVWorld(0)
+	obs, leaver, newc := w.newConn(), w.newConn(), w.newConn()
+	obs.mustJoin("")
+	leaver.mustJoin(obs.sid)
+	sid := obs.sid
+	eo := obs.addEntity(false, &hagallpb.Pose{})
+	w.drainAll()
+	verifnd.Par(func() { leaver.rh.HandleDisconnect(nil) }, func() { newc.join(sid, 2) })
+	verifnd.Assert(newc.pid != 0, "setup.c11par.joined")
+	w.drainAll()
+	en := newc.addEntity(false, &hagallpb.Pose{})
+	w.drainAll()
+	newc.dispatch(&hagallpb.EntityUpdatePose{Type: hagallpb.MsgType_MSG_TYPE_ENTITY_UPDATE_POSE, Timestamp: vts(), EntityId: en, Pose: &hagallpb.Pose{Px: 3}})
+	obs.dispatch(&hagallpb.EntityUpdatePose{Type: hagallpb.MsgType_MSG_TYPE_ENTITY_UPDATE_POSE, Timestamp: vts(), EntityId: eo, Pose: &hagallpb.Pose{Px: 4}})
+	verifnd.FireTickers(vFrame)
+	newc.pump()
+	obs.pump()
+	verifnd.FireTickers(vFrame)
+	newc.pump()
+	obs.pump()
+	verifnd.Assert(countType(obs.drain(), hagallpb.MsgType_MSG_TYPE_ENTITY_UPDATE_POSE_BROADCAST) == 1, "C11.par.newcomer_pose_relayed")
+	verifnd.Assert(countType(newc.drain(), hagallpb.MsgType_MSG_TYPE_ENTITY_UPDATE_POSE_BROADCAST) == 1, "C11.par.member_pose_relayed")
+	verifnd.Reach("C11.par.done")
 }
